@@ -150,9 +150,34 @@ func (c *FnCtx) modCall(call *ast.CallExpr, ms *modSet) {
 		return
 	}
 	con := c.V.specs.Contracts[typesFuncKey(callee.fn)]
+	if con != nil && con.Flags["frame-by-effects"] {
+		if ef := c.V.effects[typesFuncKey(callee.fn)]; ef != nil {
+			for k := range ef.W {
+				ms.heap[k] = true
+			}
+			if len(ef.W) > 0 {
+				ms.heapPtrAll = true
+			}
+		}
+	}
 	if con == nil {
 		if c.isRepoFunc(callee.fn) {
-			ms.all = true
+			if ef := c.V.effects[typesFuncKey(callee.fn)]; ef != nil && c.V.funcs[typesFuncKey(callee.fn)] != nil {
+				for k := range ef.W {
+					ms.heap[k] = true
+				}
+				if len(ef.W) > 0 {
+					ms.heapPtrAll = true
+				}
+				for g := range ef.G {
+					ms.ghost[g] = true
+				}
+				if len(ef.LockOps) > 0 {
+					ms.ghost["lock"] = true
+				}
+			} else {
+				ms.all = true
+			}
 		}
 		// extern without contract: assumed not to touch repo state; pointer args handled at the call
 		for _, a := range call.Args {
@@ -249,6 +274,11 @@ func (c *FnCtx) havoc(st *State, ms *modSet, hint string) {
 		}
 		if _, ok := st.heap[k]; ok {
 			c.havocHeapKey(st, k)
+		}
+		for hk := range st.heap {
+			if strings.HasPrefix(hk, k+".") {
+				c.havocHeapKey(st, hk)
+			}
 		}
 	}
 	for g := range ms.ghost {
@@ -390,6 +420,12 @@ func (c *FnCtx) execLoop(st *State, node ast.Node, label string, bodyNode ast.No
 	// 4. one iteration
 	it := h.clone()
 	it.assume(guard)
+	if len(ls.Inv) > 0 && !c.inTrial[node] {
+		// reachability of the loop body under the invariant (a contradictory invariant or callee contract would
+		// make every obligation inside the loop vacuous)
+		c.addObl(&Obligation{Name: fmt.Sprintf("%s/loop%d/body-reachable", c.key, ord), Kind: "vacuity", Descr: "loop body reachable under its invariant",
+			Pos: c.pos(node), Hyps: append([]string(nil), it.pc...), Goal: "false", Expect: "notunsat", Timeout: 2, Only: []string{"z3-new"}})
+	}
 	var decr0 string
 	if ls.Decr != nil {
 		env := c.specEnvAt(it, pos)
@@ -418,6 +454,14 @@ func (c *FnCtx) execLoop(st *State, node ast.Node, label string, bodyNode ast.No
 			}
 		} else {
 			ends = []*State{b}
+		}
+		if len(ls.Inv) > 0 && !c.inTrial[node] && len(ends) > 0 {
+			var pcs []string
+			for _, e := range ends {
+				pcs = append(pcs, e.pcTerm())
+			}
+			c.addObl(&Obligation{Name: fmt.Sprintf("%s/loop%d/backedge-reachable", c.key, ord), Kind: "vacuity", Descr: "some execution of the loop body reaches its end",
+				Pos: c.pos(node), Hyps: nil, Goal: tNot(tOr(pcs...)), Expect: "notunsat", Timeout: 2, Only: []string{"z3-new"}})
 		}
 		for _, e := range ends {
 			for i, inv := range ls.Inv {
